@@ -36,10 +36,12 @@ class World:
         self.kdir = os.path.join(self.d, "keys")
         self.kpath = os.path.join(self.kdir, "my.key")
         self.keys = {}
-        lines = sl.concretise(pool, ["cmd", "cmd"], 1, idx)
+        # the first line holds nothing to encrypt (a key decision taken lazily would let it through)
+        lines = sl.concretise(pool, ["oth", "cmd", "cmd"], 1, idx)
         self.good = sl.file_bytes(lines, True, False)
         longl = pool.junk_line("long", 0, 77)
-        self.abort = sl.file_bytes([lines[0], ("long", longl, 0), lines[1]], True, False)
+        self.abort = sl.file_bytes([lines[0], lines[1], ("long", longl, 0), lines[2]], True, False)
+        self.benign = sl.file_bytes(sl.concretise(pool, ["oth", "oth"], 2, idx), True, False)
         self.secrets = None
 
     def key_for(self, kid):
@@ -57,6 +59,9 @@ class World:
                 else:
                     os.chmod(p, 0o644) if not os.path.islink(p) else None
                     os.remove(p)
+        real = os.path.join(self.d, "real-key-behind-the-link")
+        if os.path.exists(real):
+            os.remove(real)
         if kind == "noparent":
             if os.path.isdir(self.kdir):
                 os.rmdir(self.kdir)
@@ -72,6 +77,14 @@ class World:
             os.chmod(self.kpath, 0o777)
             if self.unpriv:
                 os.chown(self.kpath, NOBODY, NOBODY)
+            return
+        if kind == "validLink":
+            with open(real, "wb") as f:
+                f.write(base64.b64encode(self.key_for(kid)))
+            os.chmod(real, 0o644)
+            if self.unpriv:
+                os.chown(real, NOBODY, NOBODY)
+            os.symlink(real, self.kpath)
             return
         content = {"valid": lambda: base64.b64encode(self.key_for(kid)), "validNL": lambda: base64.b64encode(self.key_for(kid)) + b"\n",
                    "empty": lambda: b"", "short": lambda: base64.b64encode(os.urandom(32)), "long": lambda: base64.b64encode(os.urandom(65)),
@@ -90,6 +103,14 @@ class World:
             return ("missing", None, None, os.path.isdir(self.kdir))
         if stat.S_ISDIR(st.st_mode):
             return ("dir", tuple(sorted(os.listdir(self.kpath))), stat.S_IMODE(st.st_mode), True)
+        if stat.S_ISLNK(st.st_mode):
+            tgt = os.readlink(self.kpath)
+            try:
+                with open(self.kpath, "rb") as f:
+                    data = f.read()
+            except OSError:
+                data = None
+            return ("link", data, tgt, True)
         with open(self.kpath, "rb") as f:
             return ("file", f.read(), stat.S_IMODE(st.st_mode), True)
 
@@ -97,7 +118,7 @@ class World:
         inp = os.path.join(self.d, "in.log")
         outp = os.path.join(self.d, "out.log")
         with open(inp, "wb") as f:
-            f.write(self.good if which == "good" else self.abort)
+            f.write({"good": self.good, "abort": self.abort, "benign": self.benign}[which])
         os.chmod(inp, 0o644)
         args = [self.b.cli, "redact", inp, "-o", outp, "--encrypt", "-q", self.kpath]
         st = os.path.join(self.d, "strace.log")
@@ -164,6 +185,9 @@ def classify(snap):
         return "absent" if snap[3] else "noparent"
     if snap[0] == "dir":
         return "dir"
+    if snap[0] == "link":
+        inner = classify(("file", snap[1], 0o644, True)) if snap[1] is not None else "nonb64"
+        return "validLink" if inner in ("valid", "validNL") else inner
     if snap[2] is not None and snap[2] & 0o400 == 0:
         return "unreadable"
     data = snap[1]
@@ -185,6 +209,43 @@ def ciphertexts(out):
         for m in re.finditer(rb'"([A-Za-z0-9+/]{22,}={0,2})"', line):
             cts.append(m.group(1).decode())
     return cts
+
+
+def key_write_faults(b, v, root, pool, unpriv):
+    """A fault exactly at the write of the fresh key (disk full, I/O error, quota): either the run fails and emits nothing, or what
+    it emitted decrypts under the key that was stored."""
+    if not shutil.which("strace"):
+        return 0
+    n = 0
+    for errno_ in ("ENOSPC", "EIO", "EDQUOT"):
+        W = World(b, root, 900 + n, pool, unpriv)
+        W.put("absent", 0)
+        inp, outp = os.path.join(W.d, "in.log"), os.path.join(W.d, "out.log")
+        with open(inp, "wb") as f:
+            f.write(W.good)
+        os.chmod(inp, 0o644)
+        st = os.path.join(W.d, "st.log")
+        cmd = ["strace", "-f", "-qq", "-o", st, "-P", W.kpath, "-e", "trace=write", "-e", "inject=write:error=%s" % errno_,
+               b.cli, "redact", inp, "-o", outp, "--encrypt", "-q", W.kpath]
+        p = subprocess.run(cmd, cwd=W.d, stdin=subprocess.DEVNULL, capture_output=True, timeout=120, preexec_fn=demote if unpriv else None)
+        trace = open(st, errors="replace").read() if os.path.exists(st) else ""
+        if errno_ not in trace:
+            shutil.rmtree(W.d, ignore_errors=True)
+            continue            # the fault could not be injected here: nothing to judge
+        n += 1
+        v.count()
+        out = open(outp, "rb").read() if os.path.exists(outp) else b""
+        snap = W.snapshot()
+        rep = {"fault": "write of the key file fails with " + errno_, "exit": p.returncode, "stderr": p.stderr.decode("utf-8", "replace")[:400],
+               "key_path_after": [snap[0], len(snap[1]) if isinstance(snap[1], bytes) else snap[1]], "output_bytes": len(out)}
+        cts = ciphertexts(out)
+        stored_ok = snap[0] == "file" and classify(snap) in ("valid", "validNL")
+        if p.returncode == 0 and not stored_ok:
+            v.violation("the run succeeds although the fresh key could not be stored (%s at the key-file write)" % errno_, rep)
+        elif cts and not stored_ok:
+            v.violation("ciphertext is emitted although the fresh key could not be stored (%s at the key-file write)" % errno_, rep)
+        shutil.rmtree(W.d, ignore_errors=True)
+    return n
 
 
 def run(tier):
@@ -238,7 +299,7 @@ def run(tier):
                 kind = classify(before)
             v.nontrivial((kind, x["input"], x["env"] != "none"))
             rep = {"key_path_before": kind, "input": x["input"], "run": x["run"], "exit": rc, "stderr": err[:400],
-                   "after": [after[0], (after[1] if not isinstance(after[1], bytes) else after[1][:120].decode("latin-1")), oct(after[2]) if after[2] is not None else None],
+                   "after": [after[0], (after[1] if not isinstance(after[1], bytes) else after[1][:120].decode("latin-1")), oct(after[2]) if isinstance(after[2], int) else after[2]],
                    "output_head": (out or b"")[:600].decode("utf-8", "replace"), "history": [[h["before"]["kind"], h["input"], h["env"]] for h in behaviours[bi]]}
             cts = ciphertexts(out)
             has_output = bool(out and out.strip())
@@ -252,16 +313,16 @@ def run(tier):
                     v.violation("a run with an unusable key file (%s) emits redacted output" % kind, rep)
                 if after != before:
                     v.violation("an unusable key file (%s) is overwritten / changed" % kind, rep)
-            elif kind in ("valid", "validNL"):
+            elif kind in ("valid", "validNL", "validLink"):
                 if after != before:
                     v.violation("an existing valid key file is not left byte-for-byte untouched (%s)" % kind, rep)
-                if x["input"] == "good" and rc != 0:
+                if x["input"] in ("good", "benign") and rc != 0:
                     v.violation("a run with a valid key file fails (%s)" % kind, rep)
                 for c in cts:
                     to_decrypt.append((c, before[1].strip(b"\n").decode("latin-1"), "a ciphertext does not decrypt under the key file in use (%s)" % kind, rep))
             elif kind in ("absent", "noparent"):
                 created = after[0] == "file"
-                if kind == "absent" and x["input"] == "good" and rc != 0:
+                if kind == "absent" and x["input"] in ("good", "benign") and rc != 0:
                     v.violation("a run with no key file fails instead of creating one", rep)
                 if created:
                     try:
@@ -284,7 +345,7 @@ def run(tier):
                     if kind == "noparent" and has_output:
                         v.violation("a run that cannot store its key emits redacted output", rep)
             # drift vs. the model
-            mk = {"file": "file", "dir": "dir", "missing": "missing"}[after[0]]
+            mk = {"file": "file", "dir": "dir", "missing": "missing", "link": "file"}[after[0]]
             model_after = x["path"]["kind"]
             model_t = "missing" if model_after in ("absent", "noparent") else "dir" if model_after == "dir" else "file"
             if (rc == 0) != (x["exit"] == 0) or mk != model_t:
@@ -295,7 +356,7 @@ def run(tier):
                 if "OutLine" in names and kind in ("absent",):
                     if "KeyWritten" not in names or names.index("KeyWritten") > names.index("OutLine"):
                         v.violation("ciphertext is written before the fresh key is stored (syscall order)", dict(rep, syscall_events=names))
-                traces.append([{"ev": "Init", "kind": kind, "input": x["input"], "lines": 2}] + ev)
+                traces.append([{"ev": "Init", "kind": kind, "input": x["input"], "lines": 2 if x["input"] == "benign" else 3}] + ev)
                 owners.append((kind, x["input"]))
     # all ciphertexts through the real Decrypt
     if to_decrypt:
@@ -316,6 +377,7 @@ def run(tier):
                     nbad += 1
                     if nbad <= 3:
                         v.violation(what, dict(rep, ciphertext=c))
+    nkw = key_write_faults(b, v, root, pool, unpriv)
     if len(set(generated)) != len(generated):
         v.violation("two generated keys are equal", {"generated": len(generated)})
     acc, rej, tstates = sl.validate_traces(traces, module="KeyFileTrace", cfg="KeyFileTrace.cfg", timeout=1500, max_rounds=15)
@@ -325,7 +387,8 @@ def run(tier):
     v.cov.update({"states": t.distinct + tstates, "transitions": t.generated, "traces_validated_against_impl": acc, "traces_rejected": len(rej),
                   "exhaustive": True, "behaviours_replayed": len(behaviours), "runs_per_behaviour": maxruns, "generated_keys_seen": len(generated),
                   "ciphertexts_decrypted": len(to_decrypt), "unprivileged_runs": unpriv,
-                  "initial_states": ["absent", "valid", "validNL", "empty", "short", "long", "nonb64", "dir", "unreadable", "noparent"],
+                  "initial_states": ["absent", "valid", "validNL", "validLink", "empty", "short", "long", "nonb64", "dir", "unreadable", "noparent"],
+                  "key_write_fault_runs": nkw,
                   "rule": "every behaviour of KeyFileMC (initial key-path state x per run: good input / input that fails part-way x the environment leaving the path "
                           "alone or putting any other state there) replayed through `redact in -o out --encrypt -q key` as an unprivileged user; after every run: "
                           "unusable => exit != 0, no output, path unchanged; valid => bytes and mode unchanged, ciphertexts decrypt under it; absent => key stored "
